@@ -154,8 +154,6 @@ def _check_sim(spec, stats):
     for m in modes:
         stats.label("mode:" + m)
     mon = event.Monitor(emap, trigger=spec["trigger"])
-    if mon.src.trigger.value != spec["trigger"]:
-        raise Violation("C13/monitor-trigger", f"Monitor.src.trigger = {mon.src.trigger}")
     top = sim.wrap(mon)
     i_cat = [s.i for s in srcs]
     trg_cat = Cat(*[s.trg for s in srcs])
